@@ -13,6 +13,7 @@ var vSessionCommands = [][]string{
 	{"CLIENT", "NO-EVICT", "on"}, {"CLIENT", "SETINFO", "LIB-NAME", "x"}, {"HELLO", "3"}, {"HELLO"}, {"SELECT", "1"},
 	{"MULTI"}, {"EXEC"}, {"DISCARD"}, {"WATCH", "k"}, {"UNWATCH"}, {"INFO"}, {"DBSIZE"}, {"FLUSHDB"}, {"FLUSHALL"},
 	{"PING"}, {"SET", "k", "v"}, {"GET", "k"}, {"COMMAND", "COUNT"}, {"CLIENT", "KILL", "ID", "999"}, {"CLIENT", "UNBLOCK", "999"},
+	{"COPY", "k", "k9", "DB", "1", "REPLACE"},
 }
 
 func vSessionLabel(i int) string { return "cmd" + vItoa(i) }
@@ -88,4 +89,28 @@ func VerifH_c16_pair() {
 	if b < n {
 		vCatch(func() { vCmd(c2, vSessionCommands[b]...) })
 	}
+}
+
+// VerifH_c13_deadlock_pair: native confirmation of a lock-order cycle found
+// by the engine (the lock-order log of VerifH_c16_session): the two commands
+// (indexes into vSessionCommands, plain or queued-and-EXECuted) run in loops
+// on two connections; if neither loop makes progress for several seconds
+// the emulator has deadlocked.  (Under gosym both commands just run once.)
+func VerifH_c13_deadlock_pair() {
+	VerifSetup()
+	n := len(vSessionCommands)
+	a, b := vChoice("a", n), vChoice("b", n)
+	am, bm := vChoice("am", 2) == 1, vChoice("bm", 2) == 1
+	disp := vNewServer()
+	c1 := vNewClientOn(disp)
+	c2 := vNewClientOn(disp)
+	if vChoice("splitdb", 2) == 1 {
+		vCmd(c2, "SELECT", "1")
+	}
+	if !vSymbolic() {
+		vAssert("both-command-loops-finish", vDeadlockPair(disp, c1, c2, a, b, am, bm))
+		return
+	}
+	vCatch(func() { vCmd(c1, vSessionCommands[a]...) })
+	vCatch(func() { vCmd(c2, vSessionCommands[b]...) })
 }
